@@ -283,6 +283,8 @@ def core(fx, rep, value_ty, evaluator, err_ty_prefix):
 
 
 def run(fx, rep):
+    from .report import producer_rules
+    producer_rules(fx, rep, 'producer rule: the parser builds arithmetic and unary-minus nodes from their own children with the operator the source shows, and never folds or regroups them (C04 R3/R5/R7/R9)', [('c04', 'C04', '^(R3/visit_calc/|R3/visit_Negate/|R5/|R7/visit_(calc|Negate)/|R9/|R3/find_operator/|R3/token-literal/)')], 15)
     core(fx, rep, 'cel_interpreter::objects::Value', 'cel_interpreter::objects::Value::resolve', 'cel_interpreter::ExecutionError')
     rep.floor('R1', 10, '(10 checked_* call sites)')
     rep.floor('R2', 20)
